@@ -943,6 +943,12 @@ func (f *Frame) evalCall(e *CExpr, env *Env) *Val {
 		case VFunc:
 			return boolVal(Eq(f.funcTerm(a), IntLit(0)))
 		}
+	case "fresh":
+		// fresh(e): the current value of e was not allocated in the old state (function entry; for a callee's contract: the call)
+		a := arg(0)
+		al0 := env.Old.Get(allocKey, allocSort)
+		f.E.noteVars(al0)
+		return boolVal(Not(allocatedIn(al0, a.X)))
 	case "alloc":
 		a := arg(0)
 		al := env.State.Get(allocKey, allocSort)
@@ -1016,17 +1022,34 @@ func (f *Frame) evalCall(e *CExpr, env *Env) *Val {
 		var key string
 		var ks *Sort
 		n := 0
-		for _, rs := range f.ranges {
-			if rs.kind == "map" {
-				key, ks = rs.visKey, rs.ksort
-				n++
+		for rv, rs := range f.ranges {
+			if rs.kind != "map" {
+				continue
 			}
+			// prefer the range whose iterator is advanced in the header of the current loop
+			if env.Loop != nil && env.Loop.hdr != nil {
+				mine := false
+				if rg, ok := rv.(*ssa.Range); ok {
+					for _, r := range *rg.Referrers() {
+						if nx, ok := r.(*ssa.Next); ok && nx.Block() == env.Loop.hdr {
+							mine = true
+						}
+					}
+				}
+				if mine {
+					key, ks, n = rs.visKey, rs.ksort, 1
+					break
+				}
+				continue
+			}
+			key, ks = rs.visKey, rs.ksort
+			n++
 		}
 		if n != 1 {
-			f.E.fail("visited() needs exactly one range-over-map in the function (found %d)", n)
+			f.E.fail("visited() needs a range-over-map loop (the current loop, or the only one of the function); found %d", n)
 		}
 		v := env.State.Get(key, ArrayS(ks, BoolS))
-		return boolVal(Select(v, k.X))
+		return boolVal(Select(v, f.keyTerm(k)))
 	case "nvisited":
 		var key string
 		n := 0
@@ -1104,11 +1127,35 @@ func (f *Frame) detApply(key, symbol string, args []*Val) *Val {
 	} else {
 		e.Assumes["abstraction "+symbol+" of "+key+": its result is a function of the listed arguments only"] = true
 	}
+	// parameter types (receiver first), to box a concrete value passed where an interface is expected
+	var ptypes []types.Type
+	if fn := e.P.ByKey[key]; fn != nil {
+		for _, prm := range fn.Params {
+			ptypes = append(ptypes, prm.Type())
+		}
+	} else if m := e.P.ifaceMethod(key); m != nil {
+		sig := m.Type().(*types.Signature)
+		if sig.Recv() != nil {
+			ptypes = append(ptypes, sig.Recv().Type())
+		}
+		for i := 0; i < sig.Params().Len(); i++ {
+			ptypes = append(ptypes, sig.Params().At(i).Type())
+		}
+	}
 	var ts []*Term
 	var sorts []*Sort
-	for _, a := range args {
+	for ai, a := range args {
 		if a.K == VAddr {
 			e.fail("fn(%s): address argument", key)
+		}
+		if ai < len(ptypes) && a.K == VScalar && a.T != nil && a.T != types.Typ[types.UntypedNil] {
+			if _, want := ptypes[ai].Underlying().(*types.Interface); want {
+				if _, isI := a.T.Underlying().(*types.Interface); !isI {
+					ts = append(ts, IntLit(int64(typeTag(a.T))), a.X)
+					sorts = append(sorts, IntS, IntS)
+					continue
+				}
+			}
 		}
 		if a.K == VScalar && a.T == types.Typ[types.UntypedNil] {
 			ts = append(ts, a.X)
